@@ -59,11 +59,24 @@ Theorem C10_cancelled : forall types s ls es c,
   forall e x, In e es -> In x (e_ready e) -> sq_id x <> sq_id c.
 Proof. exact cancelled_silent. Qed.
 
-(* a refresh whose 75 % point lies within the inter-query delay of the scheduled one keeps the schedule (no churn), and only then *)
+(* a refresh whose 75 % point lies within the inter-query delay of the scheduled one keeps the schedule (no churn), and only then:
+   the result is the old scheduler with that one entry re-timed - it takes over TTL and expiry of the refreshed record; ids, times,
+   heap order, alias table, fresh counter and armed timer are as before *)
 Theorem C10_no_churn : forall s a n created ttl,
-  reschedule_ptr_first_refresh s a n created ttl = s <->
-  exists cur, registered_query s a = Some cur /\ Z.abs (created + 750 * ttl - sq_when cur) <= sc_delay s.
+  (exists cur, registered_query s a = Some cur /\ Z.abs (created + 750 * ttl - sq_when cur) <= sc_delay s) <->
+  (exists id, d_get text_eqb (sc_by_alias s) a = Some id /\ find_id (sc_heap s) id <> None /\
+     reschedule_ptr_first_refresh s a n created ttl =
+       with_heap_alias_fresh s (retime_id (sc_heap s) id ttl (created + 1000 * ttl)) (sc_by_alias s) (sc_fresh s)).
 Proof. exact no_churn. Qed.
+
+(* ... and the query registered for the alias afterwards carries the TTL and expiry of the refreshed record, at the old time *)
+Theorem C10_no_churn_takes_ttl : forall s a n created ttl cur,
+  registered_query s a = Some cur -> Z.abs (created + 750 * ttl - sq_when cur) <= sc_delay s ->
+  exists cur', registered_query (reschedule_ptr_first_refresh s a n created ttl) a = Some cur' /\
+    sq_ttl cur' = ttl /\ sq_expire cur' = created + 1000 * ttl /\
+    sq_when cur' = sq_when cur /\ sq_id cur' = sq_id cur /\
+    sq_alias cur' = sq_alias cur /\ sq_name cur' = sq_name cur /\ sq_cancelled cur' = sq_cancelled cur.
+Proof. exact no_churn_takes_ttl. Qed.
 
 Print Assumptions C10_startup.
 Print Assumptions C10_rate.
@@ -72,6 +85,7 @@ Print Assumptions C10_refresh.
 Print Assumptions C10_refresh_general.
 Print Assumptions C10_cancelled.
 Print Assumptions C10_no_churn.
+Print Assumptions C10_no_churn_takes_ttl.
 
 (* non-vacuity: PTR ttl 4500 learned at 20 s, PTR ttl 1200 at 60 s, delay 10 s - the history on which the unrepaired code sent
    nothing for the second pointer before it expired - yields a refresh query at 960 000 ms *)
